@@ -65,7 +65,7 @@ def cases(ctx):
         for v in vals[1:]:
             add([("CN", v)], klass="single/" + cls)
     # order: 2..8 attributes, each profile variant
-    n = 40 if ctx.quick else 1500
+    n = 60 if ctx.quick else 40000
     for i in range(n):
         ln = r.randrange(2, 9)
         ks = r.sample(keys, ln)
